@@ -1052,8 +1052,11 @@ class Authenticated(BaseClientHandler):
         # actually present (the cached attributes can be stale).
         #
         results: list[tuple[str, set[str], set[str] | None]] = []
+        reference = cmd.mailbox_name
+        if cmd.list_reference_is_level and not reference.endswith("/"):
+            reference += "/"
         async for mbox_name, attributes, child_info in Mailbox.list(
-            cmd.mailbox_name,
+            reference,
             cmd.list_mailbox,
             self.server,
             lsub,
